@@ -45,7 +45,7 @@ if applied:
     try:
         for c in checks:
             t = time.time()
-            rc, out = sh(f"VERIF_REPO={EV} ./check {c} --no-evidence", "/verif", 3600)
+            rc, out = sh(f"VERIF_REPO={EV} ./check {c} --no-evidence", os.environ.get("VERIF_SNAP", "/verif"), 3600)
             keys = sorted({l.strip().split(":")[0].replace("key=", "") + ":" + l.strip().split(":")[1] for l in out.splitlines() if l.strip().startswith("key=")})
             res["checks"][c] = {"exit": rc, "violations": out.count("VIOLATION property="), "keys": keys[:6], "wall_s": round(time.time() - t)}
             if rc not in (0, 1):
